@@ -180,13 +180,13 @@ func (c *Ctx) load(h *Heap, l *Loc) Val {
 	for i, a := range l.accs {
 		v[i] = c.loadAcc(h, a)
 		// references stored in the entry heap denote objects that existed at entry
-		if a.leaf.Kind == KRef && isEntryHeapTerm(v[i]) && !c.lazyDone["entryref@"+v[i]] {
+		if c.noBind == 0 && a.leaf.Kind == KRef && isEntryHeapTerm(v[i]) && !c.lazyDone["entryref@"+v[i]] {
 			c.lazyDone["entryref@"+v[i]] = true
 			c.asserts = append(c.asserts, lt(v[i], "|alloc@0|"))
 		}
 	}
 	// type invariants of values stored in the entry heap (ranges, slice/interface structure)
-	if len(v) > 0 && l.typ != nil {
+	if c.noBind == 0 && len(v) > 0 && l.typ != nil {
 		all := true
 		for _, t := range v {
 			if !isEntryHeapTerm(t) {
@@ -241,7 +241,7 @@ func (c *Ctx) sel(arr, idx string) string {
 		}
 		break
 	}
-	if lz, ok := c.lazyArr[a]; ok {
+	if lz, ok := c.lazyArr[a]; ok && c.noBind == 0 {
 		key := a + "@" + idx
 		if !c.lazyDone[key] {
 			c.lazyDone[key] = true
